@@ -1,6 +1,9 @@
 package families
 
 import (
+	"strings"
+
+	"verif/mc/schedrun"
 	"encoding/json"
 	"fmt"
 	"os"
@@ -11,7 +14,35 @@ import (
 	"verif/mc/registry"
 )
 
+// Shows maps a ClusterMC property id to a diagnostic that prints, for every scenario whose name
+// contains sub, the decisions of ONE real cycle per configuration from the initial world
+// (`check <id> --show <sub>`; also usable on a tree with a deliberate change via mutant_run.sh).
+var Shows = map[string]func(tier, sub string) int{}
+
+func showFamily(mk func() *clustermc.Family) func(tier, sub string) int {
+	return func(tier, sub string) int {
+		for _, sc := range mk().Scenarios(tier) {
+			if !strings.Contains(sc.Name, sub) {
+				continue
+			}
+			for _, cfg := range sc.Configs {
+				res, err := schedrun.RunCycle(sc.World, cfg, nil)
+				if err != nil {
+					fmt.Println(sc.Name, "ERROR", err)
+					continue
+				}
+				fmt.Printf("%s [%s]\n", sc.Name, cfg.Label())
+				for _, d := range res.Decisions {
+					fmt.Printf("    %v [action %s]\n", d, d.AfterAction)
+				}
+			}
+		}
+		return 0
+	}
+}
+
 func registerFamily(id string, mk func() *clustermc.Family) {
+	Shows[id] = showFamily(mk)
 	registry.Register(id, func(tier string) int {
 		budget := 150 * time.Second
 		if tier == "thorough" {
